@@ -369,6 +369,10 @@ class Interp:
         if isinstance(t, ast.Name):
             env[t.id] = val
         elif isinstance(t, ast.Tuple | ast.List):
+            if isinstance(val, Opaque):
+                for sub in t.elts:
+                    self.assign(sub.value if isinstance(sub, ast.Starred) else sub, Opaque(f'{val.why}[i]'), env, mi)
+                return
             vals = self.iterate(val, t)
             if len(vals) != len(t.elts):
                 raise AnalysisError(f'unpack mismatch at {self.where(t)}')
@@ -1021,7 +1025,10 @@ class Interp:
                 emit(env)
                 return
             g = gens[i]
-            for v in self.iterate(self.eval(g.iter, env, mi), g.iter):
+            itv = self.eval(g.iter, env, mi)
+            if isinstance(itv, Opaque):
+                raise _OpaqueElts()
+            for v in self.iterate(itv, g.iter):
                 sub = dict(env)
                 self.assign(g.target, v, sub, mi)
                 if all(self.truth(self.eval(c, sub, mi), c) for c in g.ifs):
@@ -1042,7 +1049,10 @@ class Interp:
         if op is not None:
             return op
         out = []
-        self._comp(e.generators, env, mi, lambda en: out.append(self.eval(e.elt, en, mi)))
+        try:
+            self._comp(e.generators, env, mi, lambda en: out.append(self.eval(e.elt, en, mi)))
+        except _OpaqueElts:
+            return Opaque('comprehension over ⊤')
         return out
 
     ex_GeneratorExp = ex_ListComp
@@ -1052,7 +1062,10 @@ class Interp:
         if op is not None:
             return op
         out = set()
-        self._comp(e.generators, env, mi, lambda en: out.add(self.eval(e.elt, en, mi)))
+        try:
+            self._comp(e.generators, env, mi, lambda en: out.add(self.eval(e.elt, en, mi)))
+        except _OpaqueElts:
+            return Opaque('comprehension over ⊤')
         return out
 
     def ex_DictComp(self, e, env, mi):
@@ -1060,8 +1073,11 @@ class Interp:
         if op is not None:
             return op
         out = {}
-        self._comp(e.generators, env, mi,
-                   lambda en: out.__setitem__(self.eval(e.key, en, mi), self.eval(e.value, en, mi)))
+        try:
+            self._comp(e.generators, env, mi,
+                       lambda en: out.__setitem__(self.eval(e.key, en, mi), self.eval(e.value, en, mi)))
+        except _OpaqueElts:
+            return Opaque('comprehension over ⊤')
         return out
 
 
